@@ -25,7 +25,9 @@ VARIABLES script, obs, at, armed
 gvars == <<s, script, obs, at, armed>>
 
 (* ---- run one Step/Solve call to completion (a function of the state) ---- *)
-KFor(t) == t.np      \* DE kinds
+KFor(t) == CASE t.kind \in {"DE", "DE2"} -> t.np          \* exact for the DE kinds
+            [] t.kind = "NM" -> IF t.nsm = 0 THEN 1 ELSE IF Gens(t) = 0 THEN t.dim ELSE 2
+            [] OTHER -> IF t.nsm = 0 THEN 1 ELSE 3          \* representative (coverage scripts only)
 
 RECURSIVE Run(_, _, _)
 Run(t, atset, arm) ==    \* returns <<final state, remaining arm>>
